@@ -1078,12 +1078,14 @@ func execHash(steps []sx.Sexp) core.Result {
 			switch op {
 			case "slice":
 				i, j := int(a[1].MustInt()), int(a[2].MustInt())
-				if !(i <= j && j <= len(s.ref.keys)) {
-					res = "skip" // bounds outside the value: a caller error, outside the property
+				// the bounds are judged against the implementation's own length (a hash holding two equal keys is longer
+				// than its reference map); outside them: a caller error, outside the property
+				if !(i <= j && j <= s.h.Len()) {
+					res = "skip"
 					break
 				}
-				for _, k := range s.ref.keys[i:j] {
-					r.put(k, s.ref.vals[k])
+				for n := i; n < j && n < len(s.ref.keys); n++ {
+					r.put(s.ref.keys[n], s.ref.vals[s.ref.keys[n]])
 				}
 				fault = safely(func() { h = s.h.(px.List).Slice(i, j).(px.OrderedMap) })
 				failClass = "slice-wrong"
@@ -1108,6 +1110,14 @@ func execHash(steps []sx.Sexp) core.Result {
 				})
 				failClass = "filter-wrong"
 			case "sort":
+				// sort.Sort is not stable: the order among equal keys is unspecified, so a hash that (as observed on the
+				// implementation) holds two equal keys is not sorted — on either side
+				implKeys := []string{}
+				s.h.Keys().Each(func(k px.Value) { implKeys = append(implKeys, show(k)) })
+				if hasDup(implKeys) {
+					res = "skip"
+					break
+				}
 				ks := append([]string{}, s.ref.keys...)
 				sort.Strings(ks)
 				for _, k := range ks {
@@ -1534,8 +1544,12 @@ func execArr(steps []sx.Sexp) core.Result {
 				break
 			}
 			i, j := int(a[1].MustInt()), int(a[2].MustInt())
-			if !(i <= j && j <= len(s.ref)) {
+			if !(i <= j && j <= s.a.Len()) {
 				res = "skip" // out-of-range bounds are a caller error (Go slice bounds), outside the property
+				break
+			}
+			if j > len(s.ref) {
+				fs.add("arr-len", "step %d %s: the array is longer than its reference %s", si, st, refStr(s.ref))
 				break
 			}
 			var l px.List
@@ -2027,6 +2041,28 @@ func gen(g *core.G) {
 				g.Emit("hash (" + ctor + " " + strings.Join(ps, " ") + ") (put 0 " + keys[0] + " 9) (delete 0 " + keys[1] + ") (merge 0 0)")
 			})
 		}
+	}
+	// every operation (and every pair of operations) on hashes that hold two equal keys (known finding C09-literal-dup-keys):
+	// the predicate failure is explained by the finding, model and implementation must still agree on every step
+	dupOps := []string{"(put L 1 9)", "(put L " + k("a") + " 9)", "(merge L 0)", "(merge 0 L)", "(delete L 1)", "(delete L " + k("1") + ")",
+		"(deleteAll L (1 " + k("1") + "))", "(get L 1)", "(get4 L " + k("1") + ")", "(slice L 1 3)", "(slice L 0 2)", "(select L (1))",
+		"(reject L (" + k("1") + "))", "(sort L)", "(eachSlice L 2)", "(mapKeys L " + k("1") + ")", "(mnew) (mputall N L) (mput N 1 7) (get N 1)"}
+	for _, base := range []string{"(wrap (1 1) (" + k("1") + " 2) (1 3))", "(parse (" + k("1") + " 1) (" + k("1") + " 2) ((a 1) 3))",
+		"(build (1 1) (1 2) (1 3) (" + k("a") + " 4))", "(wrap (1 1) (" + k("1") + " 2)) (mapKeys 0 (a 1))"} {
+		sequences(dupOps, 2, func(ops []string) {
+			out := []string{base}
+			size := strings.Count(base, ") (mapKeys") + 1
+			for _, o := range ops {
+				made := !strings.HasPrefix(o, "(get") && !strings.HasPrefix(o, "(eachSlice") && !strings.HasPrefix(o, "(slice") && !strings.HasPrefix(o, "(sort")
+				o = strings.Replace(o, " L", " "+strconv.Itoa(size-1), -1)
+				o = strings.Replace(o, " N", " "+strconv.Itoa(size), -1)
+				out = append(out, o)
+				if made {
+					size++
+				}
+			}
+			g.Emit("hash " + strings.Join(out, " "))
+		})
 	}
 	// 2. random long histories
 	for i := 0; i < 150*g.Scale; i++ {
